@@ -95,3 +95,12 @@ CASES = [
     (lex_le, "iiii"), (lex_lt3, "iiiiii"), (floordiv_mod, "ii"), (chained, "iii"), (shortcircuit, "ii"), (loops, "ii"),
     (closure, "ii"), (sign_like, "ii"), (nested_tuple, "ii"), (absminmax, "iii"), (power, "i"), (boolarith, "ii"),
 ]
+
+
+def boolop_value(a, b):
+    c = a or b
+    d = a and b
+    return c * 7 + d
+
+
+CASES.append((boolop_value, "ii"))
